@@ -181,6 +181,20 @@ func Generate(rng *rand.Rand, i int, thorough bool) *p2prig.Scenario {
 		s.Nodes[0].DisconnectAtMsg = 3 + rng.Intn(6)
 		s.WaitReconnect = true
 	}
+	// the peer the service synced from goes away for good; an inbound peer that lagged behind catches up and is the
+	// only one left to follow (it announces the new blocks)
+	if s.Engine == "legacy" && i%8 == 5 && !atTip {
+		s.Nodes = []p2prig.NodeSpec{{Kind: "honest"}, {Kind: "laggard", Lag: 1 + rng.Intn(6), Inbound: true}}
+		s.DropNode0AfterSync = true
+		s.WaitReconnect = false
+		s.InitialStore, s.PrefixLen = "genesis", 0
+		if len(s.Announce) == 0 {
+			s.Announce = []p2prig.AnnounceSpec{{Blocks: 1 + rng.Intn(2), Mode: []string{"inv", "headers", "conformant"}[rng.Intn(3)]}}
+		}
+		for k := range s.Announce {
+			s.Announce[k].Nodes = nil
+		}
+	}
 	if thorough && nPeers > 1 && rng.Intn(30) == 0 {
 		// a non-honest peer stalls (never answers getheaders): needs the 30-45 s stall detection
 		for j := 1; j < nPeers; j++ {
@@ -240,6 +254,9 @@ func Classify(s *p2prig.Scenario) string {
 		lenClass = ">cap"
 	case s.HonestLen >= 1999:
 		lenClass = "~cap"
+	}
+	if s.DropNode0AfterSync {
+		kinds = append(kinds, "node0-goes-away")
 	}
 	return strings.Join([]string{s.Engine, cp, s.InitialStore, lenClass, strings.Join(kinds, "+"), strings.Join(ann, ",")}, "|")
 }
